@@ -65,7 +65,7 @@ func (f *File) Position(pos, end Pos) *Position {
 		fmt.Fprintf(&source, "   |  %s^%s", strings.Repeat(" ", column), strings.Repeat("~", count))
 	case line < endLine:
 		for l := line; l <= endLine; l++ {
-			if l > 0 {
+			if l > line {
 				fmt.Fprintln(&source)
 			}
 			lineBuffer := f.Buffer[f.lines[l] : f.lines[l+1]-1]
